@@ -55,7 +55,7 @@ Theorem proposal_inputs_at_step_anchor
   /\ forall s, In s steps ->
        exists a inputs,
          s_anchor s = Some a /\ s_inputs s = rrefs inputs /\ NoDup (rrefs inputs)
-         /\ s_in_value s = sum_values inputs /\ s_tin s = 0 /\ s_pay s = pay /\ step_balanced s = true
+         /\ s_in_value s = sum_values inputs /\ s_tins s = [] /\ s_pay s = pay /\ step_balanced s = true
          /\ forall r, In r inputs ->
               In r db /\ input_ok acct (e_target e) a pol (overridable (LFPolicy lp)) permitted r.
 Proof.
